@@ -19,6 +19,9 @@ type wireEvent struct {
 	s string
 }
 
+// eventFilter, when set, restricts the recorded events (used to follow one stream only).
+var eventFilter func(in ssa.Instruction) bool
+
 // tracePaths enumerates success paths of f (error edges pruned, each back edge taken at most
 // once) and returns the set of normalised event strings, one per path.
 func (c *Ctx) tracePaths(f *ssa.Function, maxPaths int) (paths []string, truncated bool) {
@@ -97,6 +100,9 @@ func (c *Ctx) tracePathsIn(f *ssa.Function, maxPaths int, stack map[*ssa.Functio
 					evs = append(evs, "CALL("+h.Name()+")")
 					continue
 				}
+			}
+			if eventFilter != nil && !eventFilter(in) {
+				continue
 			}
 			if e := c.eventOf(f, in); e != "" {
 				evs = append(evs, e)
